@@ -203,6 +203,21 @@ func directedOracle() []hist {
 		h.add(claimLine(1, 1, 13, snd0, 4, "9", "eth", tok0, 2))
 		front = append(front, h) // run first: see the end of the function
 	}
+	// a FAILED prophecy stays failed: powers 3,3,2,2, three different amounts -> FAILED; late claims are refused, with and
+	// without the whitelist shrinking in between (after which the first content would hold 3 of 5)
+	for _, between := range [][]string{{}, {"tx wl 3 remove 1", "tx wl 3 remove 2"}, {"restart"}, {"blk 100801", "blk 1"}} {
+		var h hist
+		stdSetup(&h, []int64{3, 3, 2, 2}, nil, "0,1,2,3")
+		h.add(claimLine(0, 1, 20, snd0, 4, "10", "eth", tok0, 2))
+		h.add(claimLine(1, 1, 20, snd0, 4, "11", "eth", tok0, 2))
+		h.add(claimLine(2, 1, 20, snd0, 4, "12", "eth", tok0, 2))
+		for _, l := range between {
+			h.add(l)
+		}
+		h.add(claimLine(3, 1, 20, snd0, 4, "10", "eth", tok0, 2))
+		h.add(claimLine(0, 1, 20, snd0, 4, "10", "eth", tok0, 2))
+		front = append(front, h)
+	}
 	// a whitelist that names a validator twice (two adds of the previous binary, or genesis): the admin's remove takes it
 	// out altogether; its claims are refused and its power counts nowhere (50/30/20: 30 of 50 is not 70 %)
 	for _, setup := range [][]string{{"wlset 0,1,2,0"}, {"wlset 0,1,2", "tx wl 3 add 0"}, {"wlset 0,1,2,0", "restart"}} {
@@ -426,6 +441,26 @@ func directedPeg() []hist {
 		h.add("tx lock 3 1 %s 10 rowan %s", f1, gasCost)
 		hs = append(hs, h)
 	}
+	// a genesis whose peggy-token list is in arrival order: every listed token is pegged — its lock refused, its burn done
+	for _, l := range [][]string{{"ceth", "cusdt", "cdai"}, {"cusdt", "cdai", "ceth", "cbtc", "cada", "cZRX"}, {"cdai", "ceth"}} {
+		var h hist
+		stdSetup(&h, []int64{50, 50}, nil, "0,1")
+		h.add("pegset %s", strings.Join(l, ","))
+		h.add("fund 4 ceth 5000000000000000000")
+		for _, d := range l {
+			h.add("fund 4 %s 1000000", d)
+		}
+		for _, d := range l {
+			h.add("tx lock 4 1 %s 10 %s %s", low, d, gasCost)
+			h.add("tx burn 4 1 %s 10 %s %s", low, d, gasCost)
+		}
+		h.add("restart")
+		for _, d := range l {
+			h.add("tx lock 4 1 %s 10 %s %s", low, d, gasCost)
+			h.add("tx burn 4 1 %s 10 %s %s", low, d, gasCost)
+		}
+		hs = append(hs, h)
+	}
 	// fees of extreme sign and size on the branch "burn ceth itself, no fee receiver, the module holds fees of earlier
 	// exports": nobody can take the module's fees out by stating a negative fee; an account holding nothing burns nothing
 	{
@@ -576,6 +611,22 @@ func randomHistory(rng *Rng, profile string) hist {
 	}
 	stdSetup(&h, powers, bonded, wls)
 	var held []holding
+	if profile == "peg" && rng.Chance(1, 2) {
+		// the ethbridge genesis lists 3-6 peggy tokens in arrival (not sorted) order; accounts hold them from genesis
+		pool := []string{"ceth", "cusdt", "cdai", "cusdc", "cbtc", "ceos", "cada", "cbnb", "cUSDT", "cc1", "cxrp", "cZRX"}
+		for i := len(pool) - 1; i > 0; i-- {
+			j := rng.Intn(i + 1)
+			pool[i], pool[j] = pool[j], pool[i]
+		}
+		l := pool[:3+rng.Intn(4)]
+		h.add("pegset %s", strings.Join(l, ","))
+		for _, d := range l {
+			a := 4 + rng.Intn(3)
+			h.add("fund %d %s %s", a, d, new(big.Int).Add(rng.Amount(70), bigPow(10, 6)))
+			h.add("fund %d ceth %s", a, bigPow(10, 18))
+			held = append(held, holding{a, d})
+		}
+	}
 	bootstrap := profile == "peg" && nv == 2 && wls == "0,1"
 	if bootstrap {
 		syms := []string{"eth", "usdc", "dai"}
@@ -938,6 +989,55 @@ func shrinkHistory(rng *Rng, profile string) hist {
 	return h
 }
 
+// failedHistory: the validators disagree until the prophecy FAILS (no content can reach the threshold any more); then the
+// whitelist, the powers, the block height or nothing changes; then late claims — by validators that have not claimed yet
+// and by those that have — for the content of the first claimant.  A failed prophecy stays failed.
+func failedHistory(rng *Rng, profile string) hist {
+	var h hist
+	nv := 3 + rng.Intn(4) // 3..6
+	powers := make([]int64, nv)
+	for i := range powers {
+		powers[i] = int64(2 + rng.Intn(3)) // 2..4: no single validator and no pair of the first three holds 70 %
+	}
+	if nv == 3 {
+		powers = []int64{3, 3, 3}
+	}
+	stdSetup(&h, powers, nil, seq(nv))
+	ev := int64(60 + rng.Intn(20))
+	snd := ethSpelling(rng, ethBases[1])
+	first := randContent(rng, false)
+	h.add("tx claim 0 1 %d %s %s", ev, snd, first)
+	k := nv - 1
+	if nv > 4 {
+		k = nv - 2 // some validators keep their claim for later
+	}
+	for i := 1; i <= k; i++ {
+		c := randContent(rng, false)
+		for c == first {
+			c = randContent(rng, false)
+		}
+		h.add("tx claim %d 1 %d %s %s", i, ev, snd, c)
+	}
+	for i := rng.Intn(3); i > 0; i-- {
+		switch rng.Intn(5) {
+		case 0:
+			h.add("tx wl 3 remove %d", 1+rng.Intn(nv-1))
+		case 1:
+			h.add("val %d %d 1", rng.Intn(nv), 50+rng.Intn(50))
+		case 2:
+			h.add("blk %d", []int64{1, 10, 100801}[rng.Intn(3)])
+		case 3:
+			h.add("restart")
+		default:
+			h.add("jail %d", 1+rng.Intn(nv-1))
+		}
+	}
+	for i := 1 + rng.Intn(4); i > 0; i-- {
+		h.add("tx claim %d 1 %d %s %s", rng.Intn(nv), ev, snd, first)
+	}
+	return h
+}
+
 // sp spells an address field: the alias, with probability 1/den followed by "U" (all-upper-case bech32)
 func sp(rng *Rng, alias int, den int) string {
 	if rng.Chance(1, den) {
@@ -1112,6 +1212,8 @@ func runBridge(profile string, directed func() []hist) Family {
 			}
 			if rng.Chance(1, den) {
 				hs = append(hs, shrinkHistory(rng, profile))
+			} else if rng.Chance(1, 10) {
+				hs = append(hs, failedHistory(rng, profile))
 			} else {
 				hs = append(hs, randomHistory(rng, profile))
 			}
